@@ -77,6 +77,9 @@ func (r *Run) Rule(id, doc string, min int) {
 	r.RuleMin[id] = min
 }
 
+// Use selects an already declared rule as the current one.
+func (r *Run) Use(id string) { r.curRule = id }
+
 func (r *Run) add(o Obligation) {
 	if o.Rule == "" {
 		o.Rule = r.curRule
